@@ -2384,4 +2384,674 @@ theorem highestDensityRegion_eq (data fractions : List Rat) (upper : Bool) (bufS
   rfl
 
 
+
+/-! ## merge_peaks: the merged waveform -/
+
+theorem sum_replicate_rat (k : Nat) (c : Rat) : (List.replicate k c).sum = (k : Rat) * c := by
+  induction k with
+  | zero => simp
+  | succ k ih => rw [List.replicate_succ, List.sum_cons, ih]; push_cast; grind
+
+theorem upsampleWave_sum (xs : List Rat) (k : Nat) (hk : 0 < k) : (upsampleWave xs k).sum = xs.sum := by
+  have hk0 : (k : Rat) ≠ 0 := by
+    have : (0 : Rat) < (k : Rat) := Rat.natCast_pos.mpr hk
+    grind
+  unfold upsampleWave
+  induction xs with
+  | nil => rfl
+  | cons x xs ih =>
+    rw [List.flatMap_cons, List.sum_append, ih, List.sum_cons, sum_replicate_rat]
+    congr 1; grind
+
+theorem upsampleWave_length (xs : List Rat) (k : Nat) : (upsampleWave xs k).length = xs.length * k := by
+  unfold upsampleWave
+  induction xs with
+  | nil => simp
+  | cons x xs ih => rw [List.flatMap_cons, List.length_append, ih]; simp; grind
+
+/-- all samples from index `k` on are zero -/
+def ZeroFrom (buf : List Rat) (k : Nat) : Prop := ∀ i, k ≤ i → buf.getD i 0 = 0
+
+theorem zeroFrom_zeros (n k : Nat) : ZeroFrom (zeros n) k := by
+  intro i _
+  simp [zeros, List.getD_eq_getElem?_getD, List.getElem?_replicate]; split <;> rfl
+
+/-- assigning into a still-zero region adds the assigned samples to the sum and keeps everything behind zero -/
+theorem setAt_zero_region : ∀ (buf : List Rat) (k : Nat) (xs : List Rat), ZeroFrom buf k → k + xs.length ≤ buf.length →
+    (setAt buf k xs).sum = buf.sum + xs.sum ∧ ZeroFrom (setAt buf k xs) (k + xs.length) := by
+  intro buf
+  induction buf with
+  | nil =>
+    intro k xs _ hfit
+    have : xs = [] := by cases xs <;> simp_all
+    subst this
+    exact ⟨by simp [setAt, Rat.add_zero], by intro i _; simp [setAt]⟩
+  | cons b bs ih =>
+    intro k xs hz hfit
+    cases k with
+    | zero =>
+      cases xs with
+      | nil => exact ⟨by simp [setAt, Rat.add_zero], by simpa [setAt] using hz⟩
+      | cons x xs =>
+        have hb : b = 0 := by simpa using hz 0 (Nat.le_refl 0)
+        have hz' : ZeroFrom bs 0 := by intro i _; simpa using hz (i+1) (by omega)
+        obtain ⟨i1, i2⟩ := ih 0 xs hz' (by simp at hfit ⊢; omega)
+        simp only [setAt, List.sum_cons, i1, hb]
+        refine ⟨by grind, ?_⟩
+        intro i hi
+        cases i with
+        | zero => simp at hi
+        | succ i =>
+          simp only [List.getD_cons_succ]
+          exact i2 i (by simp at hi ⊢; omega)
+    | succ k =>
+      have hz' : ZeroFrom bs k := by intro i hi; simpa using hz (i+1) (by omega)
+      obtain ⟨i1, i2⟩ := ih k xs hz' (by simp at hfit ⊢; omega)
+      simp only [setAt, List.sum_cons, i1]
+      refine ⟨by grind, ?_⟩
+      intro i hi
+      cases i with
+      | zero => omega
+      | succ i => simp only [List.getD_cons_succ]; exact i2 i (by omega)
+
+
+/-- the constituents are written one behind the other: each starts (in samples of the common dt, counted from
+the first start) at or behind the end of the previous one -/
+def MergeChain (t0 common : Int) : Nat → List Peak → Prop
+  | _, [] => True
+  | hi, p :: rest =>
+    (hi : Int) ≤ Int.fdiv (p.time - t0) common ∧ MergeChain t0 common (Int.fdiv (p.endt - t0) common).toNat rest
+
+theorem mergeLoop_wave (t0 common : Int) (hc : 0 < common) :
+    ∀ (old : List Peak) (acc acc' : MergeAcc) (hi : Nat), mergeLoop t0 common old acc = .ok acc' →
+      ZeroFrom acc.buf hi → MergeChain t0 common hi old →
+      (∀ p ∈ old, common ∣ p.dt ∧ 0 < p.dt ∧ Int.fdiv (p.endt - t0) common ≤ acc.buf.length) →
+      acc'.buf.sum = acc.buf.sum + (old.map (·.wave.sum)).sum := by
+  intro old
+  induction old with
+  | nil => intro acc acc' hi h _ _ _; simp [mergeLoop] at h; subst h; simp [Rat.add_zero]
+  | cons p ps ih =>
+    intro acc acc' hi h hz hch hp
+    obtain ⟨hdvd, hdt, hfit⟩ := hp p (by simp)
+    obtain ⟨hhi, hrest⟩ := hch
+    unfold mergeLoop at h
+    simp only [] at h
+    split at h
+    · simp at h
+    · rename_i hneg
+      split at h
+      · simp at h
+      · rename_i hlen
+        have hl0 : 0 ≤ p.length := by omega
+        obtain ⟨u, hu⟩ := hdvd
+        have hup : p.dt / common = u := by rw [hu]; exact Int.mul_ediv_cancel_left _ (by omega)
+        have hu1 : 1 ≤ u := by
+          false_or_by_contra
+          have : u ≤ 0 := by omega
+          have := Int.mul_le_mul_of_nonneg_left this (Int.le_of_lt hc)
+          simp at this; omega
+        have hwl : p.wave.length = p.length.toNat := by
+          unfold Peak.wave; simp; omega
+        have hxl : (upsampleWave p.wave (p.dt / common).toNat).length = p.length.toNat * u.toNat := by
+          rw [upsampleWave_length, hwl, hup]
+        have hend : Int.fdiv (p.endt - t0) common = Int.fdiv (p.time - t0) common + p.length * u := by
+          have : p.endt - t0 = (p.time - t0) + (p.length * u) * common := by
+            unfold Peak.endt; rw [hu]; grind
+          rw [this]; exact fdiv_add_mul _ _ _ hc
+        have hmul : ((p.length.toNat * u.toNat : Nat) : Int) = p.length * u := by
+          push_cast
+          rw [Int.toNat_of_nonneg hl0, Int.toNat_of_nonneg (by omega)]
+        have hidx : (Int.fdiv (p.time - t0) common).toNat + (upsampleWave p.wave (p.dt / common).toNat).length
+            = (Int.fdiv (p.endt - t0) common).toNat := by
+          rw [hxl]; omega
+        have hzi : ZeroFrom acc.buf (Int.fdiv (p.time - t0) common).toNat := by
+          intro i hi'; exact hz i (by omega)
+        obtain ⟨s1, s2⟩ := setAt_zero_region acc.buf _ _ hzi (by rw [hidx]; omega)
+        rw [hidx] at s2
+        have := ih _ acc' _ h s2 hrest (by
+          intro q hq
+          obtain ⟨a, b, c⟩ := hp q (by simp [hq])
+          exact ⟨a, b, by simp only [setAt_length]; exact c⟩)
+        rw [this, s1, upsampleWave_sum _ _ (by rw [hup]; omega)]
+        simp only [List.map_cons, List.sum_cons]
+        grind
+
+
+/-- time-sorted and non-overlapping (what `_merge_peaks` checks before it starts) -/
+def DisjointSorted : List Peak → Prop
+  | p :: q :: rest => p.endt ≤ q.time ∧ DisjointSorted (q :: rest)
+  | _ => True
+
+theorem gcdFold_dvd : ∀ (l : List Peak) (g : Int),
+    (l.foldl (fun g q => (Int.gcd g q.dt : Int)) g) ∣ g ∧ ∀ q ∈ l, (l.foldl (fun g q => (Int.gcd g q.dt : Int)) g) ∣ q.dt := by
+  intro l
+  induction l with
+  | nil => intro g; exact ⟨Int.dvd_refl _, by simp⟩
+  | cons q l ih =>
+    intro g
+    simp only [List.foldl_cons]
+    obtain ⟨h1, h2⟩ := ih (Int.gcd g q.dt : Int)
+    refine ⟨Int.dvd_trans h1 (Int.gcd_dvd_left _ _), ?_⟩
+    intro r hr
+    rcases List.mem_cons.mp hr with rfl | hr
+    · exact Int.dvd_trans h1 (Int.gcd_dvd_right _ _)
+    · exact h2 r hr
+
+theorem gcdOfDts_dvd (old : List Peak) : ∀ p ∈ old, gcdOfDts old ∣ p.dt := by
+  cases old with
+  | nil => simp
+  | cons a l =>
+    intro p hp
+    simp only [gcdOfDts]
+    obtain ⟨h1, h2⟩ := gcdFold_dvd l a.dt
+    rcases List.mem_cons.mp hp with rfl | hp
+    · exact h1
+    · exact h2 p hp
+
+theorem endt_le_last : ∀ (old : List Peak) (last : Peak), DisjointSorted old →
+    (∀ p ∈ old, 0 ≤ p.length ∧ 0 < p.dt) → old.getLast? = some last → ∀ p ∈ old, p.endt ≤ last.endt := by
+  intro old
+  induction old with
+  | nil => intro last _ _ _ p hp; simp at hp
+  | cons a l ih =>
+    intro last hd hpos hl p hp
+    cases l with
+    | nil =>
+      simp at hl hp; subst hl; subst hp; exact Int.le_refl _
+    | cons b l' =>
+      have hl' : (b :: l').getLast? = some last := by simpa [List.getLast?_cons_cons] using hl
+      have ihb := ih last hd.2 (fun q hq => hpos q (by simp [hq])) hl'
+      rcases List.mem_cons.mp hp with rfl | hp
+      · have hbe : b.time ≤ b.endt := by
+          have := hpos b (by simp)
+          unfold Peak.endt
+          have := Int.mul_nonneg (Int.le_of_lt this.2) this.1
+          omega
+        have := ihb b (by simp)
+        have := hd.1
+        omega
+      · exact ihb p hp
+
+theorem mergeChain_of_sorted (t0 common : Int) (hc : 0 < common) : ∀ (old : List Peak) (hi : Nat),
+    DisjointSorted old → (∀ p ∈ old, 0 ≤ p.length ∧ 0 < p.dt) →
+    (∀ p, old.head? = some p → (hi : Int) ≤ Int.fdiv (p.time - t0) common) → MergeChain t0 common hi old := by
+  intro old
+  induction old with
+  | nil => intros; trivial
+  | cons a l ih =>
+    intro hi hd hpos hh
+    have h0 := hh a rfl
+    refine ⟨h0, ?_⟩
+    cases l with
+    | nil => trivial
+    | cons b l' =>
+      apply ih _ hd.2 (fun q hq => hpos q (by simp [hq]))
+      intro p hp
+      simp at hp; subst hp
+      have hae : a.time ≤ a.endt := by
+        have := hpos a (by simp)
+        unfold Peak.endt
+        have := Int.mul_nonneg (Int.le_of_lt this.2) this.1
+        omega
+      have m1 : Int.fdiv (a.endt - t0) common ≤ Int.fdiv (b.time - t0) common := by
+        rw [Int.fdiv_eq_ediv_of_nonneg _ (Int.le_of_lt hc), Int.fdiv_eq_ediv_of_nonneg _ (Int.le_of_lt hc)]
+        exact Int.ediv_le_ediv hc (by have := hd.1; omega)
+      have m2 : Int.fdiv (a.time - t0) common ≤ Int.fdiv (a.endt - t0) common := by
+        rw [Int.fdiv_eq_ediv_of_nonneg _ (Int.le_of_lt hc), Int.fdiv_eq_ediv_of_nonneg _ (Int.le_of_lt hc)]
+        exact Int.ediv_le_ediv hc (by omega)
+      omega
+
+
+/-- **merged waveform.** For time-sorted, non-overlapping constituents with positive `dt` the merged peak is
+`store_downsampled_waveform` of a full-resolution buffer (common dt) that integrates to the sum of the
+constituents' waveforms; hence what is stored plus what down-sampling drops (D11) integrates to that sum -/
+theorem mergeOne_wave (nCh nS : Nat) (old : List Peak) (q : Peak) (e : Int) (hnS : 0 < nS)
+    (hd : DisjointSorted old) (hdt : ∀ p ∈ old, 0 < p.dt)
+    (h : mergeOne nCh nS old = .ok (q, e)) :
+    ∃ (p0 : Peak) (buf : List Rat), q = storeDownsampled p0 buf ∧ p0.data.length = nS ∧ buf.length = p0.length.toNat ∧
+      buf.sum = (old.map (·.wave.sum)).sum ∧
+      q.wave.sum + (droppedTail p0 buf).sum = (old.map (·.wave.sum)).sum := by
+  unfold mergeOne at h
+  split at h
+  · rename_i first rest last hl
+    simp only [] at h
+    split at h
+    · simp at h
+    · rename_i hc0
+      split at h
+      · simp at h
+      · rename_i acc hacc
+        simp only [Except.ok.injEq, Prod.mk.injEq] at h
+        obtain ⟨hq, _⟩ := h
+        have hg := gcdOfDts_nonneg (first :: rest) (fun p hp => Int.le_of_lt (hdt p hp))
+        have hc : 0 < gcdOfDts (first :: rest) := by omega
+        -- lengths are non-negative, otherwise the loop would have failed
+        have hlen : ∀ (l : List Peak) (a a' : MergeAcc), mergeLoop first.time (gcdOfDts (first :: rest)) l a = .ok a' →
+            ∀ p ∈ l, 0 ≤ p.length := by
+          intro l
+          induction l with
+          | nil => intro _ _ _ p hp; simp at hp
+          | cons x xs ih =>
+            intro a a' hm p hp
+            unfold mergeLoop at hm
+            simp only [] at hm
+            split at hm
+            · simp at hm
+            · rename_i hneg
+              split at hm
+              · simp at hm
+              · rcases List.mem_cons.mp hp with rfl | hp
+                · omega
+                · exact ih _ a' hm p hp
+        have hpos : ∀ p ∈ first :: rest, 0 ≤ p.length ∧ 0 < p.dt := fun p hp => ⟨hlen _ _ _ hacc p hp, hdt p hp⟩
+        have hlast := endt_le_last (first :: rest) last hd hpos hl
+        have hfe : first.time ≤ first.endt := by
+          have := hpos first (by simp)
+          unfold Peak.endt
+          have := Int.mul_nonneg (Int.le_of_lt this.2) this.1
+          omega
+        have hlen0 : 0 ≤ Int.fdiv (last.endt - first.time) (gcdOfDts (first :: rest)) := by
+          rw [Int.fdiv_eq_ediv_of_nonneg _ hg]
+          exact Int.ediv_nonneg (by have := hlast first (by simp); omega) hg
+        have hchain := mergeChain_of_sorted first.time _ hc (first :: rest) 0 hd hpos (by
+          intro p hp; simp at hp; subst hp; simp [Int.fdiv])
+        have hw := mergeLoop_wave first.time _ hc (first :: rest) _ acc 0 hacc (zeroFrom_zeros _ 0) hchain (by
+          intro p hp
+          refine ⟨gcdOfDts_dvd _ p hp, hdt p hp, ?_⟩
+          simp only [zeros_length]
+          rw [Int.toNat_of_nonneg hlen0, Int.fdiv_eq_ediv_of_nonneg _ hg, Int.fdiv_eq_ediv_of_nonneg _ hg]
+          exact Int.ediv_le_ediv hc (by have := hlast p hp; omega))
+        simp only [zeros_sum, Rat.zero_add] at hw
+        obtain ⟨_, _, a3, _, _⟩ := mergeLoop_acc _ _ _ _ _ hacc
+        simp only [zeros_length] at a3
+        refine ⟨_, acc.buf, hq.symm, by simp [zeros_length], by simpa using a3, hw, ?_⟩
+        rw [← hq, ← hw]
+        exact storeDownsampled_sum _ acc.buf (by simp [zeros_length]; exact hnS) (by simpa using a3)
+  · simp at h
+
+
+
+/-! ## add_lone_hits -/
+
+theorem addIdx_oob (l : List Rat) (k : Nat) (v : Rat) (h : l.length ≤ k) : addIdx l k v = l := by
+  induction l generalizing k with
+  | nil => simp [addIdx]
+  | cons b bs ih =>
+    cases k with
+    | zero => simp at h
+    | succ k => simp [addIdx, ih k (by simpa using h)]
+
+theorem addIdx_getD' (l : List Rat) (k j : Nat) (v : Rat) :
+    (addIdx l k v).getD j 0 = l.getD j 0 + (if j = k ∧ k < l.length then v else 0) := by
+  by_cases hk : k < l.length
+  · rw [addIdx_getD l k j v hk]; simp [hk]
+  · rw [addIdx_oob l k v (by omega)]; simp [hk, Rat.add_zero]
+
+theorem modifyNth_length {α} (l : List α) (i : Nat) (f : α → α) : (modifyNth l i f).length = l.length := by
+  induction l generalizing i with
+  | nil => simp [modifyNth]
+  | cons x xs ih => cases i <;> simp [modifyNth, ih]
+
+theorem modifyNth_getElem? {α} (l : List α) (i k : Nat) (f : α → α) :
+    (modifyNth l i f)[k]? = if k = i then l[k]?.map f else l[k]? := by
+  induction l generalizing i k with
+  | nil => simp [modifyNth]
+  | cons x xs ih =>
+    cases i with
+    | zero => cases k <;> simp [modifyNth]
+    | succ i =>
+      cases k with
+      | zero => simp [modifyNth]
+      | succ k => simp [modifyNth, ih]
+
+/-- sample index of a lone hit inside a peak: `(lh.time - p.time) // p.dt` -/
+def loneIndex (p : Peak) (lh : Hit) : Nat := (Int.fdiv (lh.time - p.time) p.dt).toNat
+
+
+/-- what the lone hits assigned to peak `k` add to it -/
+def loneArea (toPe : List Rat) (pairs : List (Option Nat × Hit)) (k : Nat) : Rat :=
+  ((pairs.filter (fun x => decide (x.1 = some k))).map (fun x => hitPE toPe x.2)).sum
+
+def loneApc (toPe : List Rat) (pairs : List (Option Nat × Hit)) (k c nCh : Nat) : Rat :=
+  ((pairs.filter (fun x => decide (x.1 = some k) && (decide (x.2.channel = c) && decide (c < nCh)))).map (fun x => hitPE toPe x.2)).sum
+
+def loneData (toPe : List Rat) (pairs : List (Option Nat × Hit)) (p : Peak) (k m : Nat) : Rat :=
+  ((pairs.filter (fun x => decide (x.1 = some k) && (decide (loneIndex p x.2 = m) && decide (m < p.data.length)))).map
+    (fun x => hitPE toPe x.2)).sum
+
+/-- `_add_lone_hits`: every peak keeps its time span; its area grows by the PE of exactly the lone hits assigned
+to it, its per-channel areas by those of that channel, and sample `(lh.time - time) // dt` of its waveform
+receives each of them -/
+theorem addLoneLoop_spec (toPe : List Rat) :
+    ∀ (pairs : List (Option Nat × Hit)) (peaks out : List Peak), addLoneLoop toPe pairs peaks = .ok out →
+      out.length = peaks.length ∧
+      ∀ k p, peaks[k]? = some p → ∃ q, out[k]? = some q ∧
+        q.time = p.time ∧ q.length = p.length ∧ q.dt = p.dt ∧ q.apc.length = p.apc.length ∧ q.data.length = p.data.length ∧
+        q.area = p.area + loneArea toPe pairs k ∧
+        (∀ c, q.apc.getD c 0 = p.apc.getD c 0 + loneApc toPe pairs k c p.apc.length) ∧
+        (∀ m, q.data.getD m 0 = p.data.getD m 0 + loneData toPe pairs p k m) := by
+  intro pairs
+  induction pairs with
+  | nil =>
+    intro peaks out h
+    simp [addLoneLoop] at h; subst h
+    refine ⟨rfl, ?_⟩
+    intro k p hp
+    exact ⟨p, hp, rfl, rfl, rfl, rfl, rfl, by simp [loneArea, Rat.add_zero], by simp [loneApc, Rat.add_zero],
+      by simp [loneData, Rat.add_zero]⟩
+  | cons x rest ih =>
+    intro peaks out h
+    obtain ⟨oi, lh⟩ := x
+    cases oi with
+    | none =>
+      simp only [addLoneLoop] at h
+      obtain ⟨h1, h2⟩ := ih peaks out h
+      refine ⟨h1, ?_⟩
+      intro k p hp
+      obtain ⟨q, e1, e2, e3, e4, e5, e6, e7, e8, e9⟩ := h2 k p hp
+      refine ⟨q, e1, e2, e3, e4, e5, e6, ?_, ?_, ?_⟩
+      · simpa [loneArea, List.filter_cons] using e7
+      · intro c; simpa [loneApc, List.filter_cons] using e8 c
+      · intro m; simpa [loneData, List.filter_cons] using e9 m
+    | some i =>
+      simp only [addLoneLoop] at h
+      split at h
+      · simp at h
+      · rename_i p0 hp0
+        split at h
+        · simp at h
+        · split at h
+          · simp at h
+          · obtain ⟨h1, h2⟩ := ih _ out h
+            rw [modifyNth_length] at h1
+            refine ⟨h1, ?_⟩
+            intro k p hp
+            by_cases hk : k = i
+            · subst hk
+              have hpp : p0 = p := by rw [hp0] at hp; exact Option.some.inj hp
+              subst hpp
+              obtain ⟨q, e1, e2, e3, e4, e5, e6, e7, e8, e9⟩ := h2 k
+                (loneUpdate (lh.area * toPe.getD lh.channel 0) lh.channel (Int.fdiv (lh.time - p0.time) p0.dt).toNat p0)
+                (by rw [modifyNth_getElem?]; simp [hp0])
+              simp only [loneUpdate, addIdx_length] at e2 e3 e4 e5 e6 e7 e8 e9
+              refine ⟨q, e1, e2, e3, e4, e5, e6, ?_, ?_, ?_⟩
+              · rw [e7]; simp [loneArea, List.filter_cons, hitPE]; grind
+              · intro c
+                rw [e8 c, addIdx_getD']
+                simp only [loneApc, List.filter_cons, decide_true, Bool.true_and]
+                by_cases hc : lh.channel = c ∧ c < p0.apc.length
+                · obtain ⟨hc1, hc2⟩ := hc
+                  subst hc1
+                  simp [hc2, hitPE]; grind
+                · have : ¬ (c = lh.channel ∧ lh.channel < p0.apc.length) := by
+                    intro hh; exact hc ⟨hh.1.symm, by rw [← hh.1] at hh; exact hh.2⟩
+                  have hb : (decide (lh.channel = c) && decide (c < p0.apc.length)) = false := by
+                    simp only [Bool.and_eq_false_iff, decide_eq_false_iff_not]
+                    by_cases h1 : lh.channel = c
+                    · right; intro h2; exact hc ⟨h1, h2⟩
+                    · left; exact h1
+                  simp [this, hb, Rat.add_zero]
+              · intro m
+                rw [e9 m, addIdx_getD']
+                have hli : ∀ y : Hit, loneIndex
+                    { p0 with area := p0.area + lh.area * toPe.getD lh.channel 0,
+                              apc := addIdx p0.apc lh.channel (lh.area * toPe.getD lh.channel 0),
+                              data := addIdx p0.data (Int.fdiv (lh.time - p0.time) p0.dt).toNat (lh.area * toPe.getD lh.channel 0) } y
+                    = loneIndex p0 y := fun _ => rfl
+                simp only [loneData, List.filter_cons, decide_true, Bool.true_and, hli, addIdx_length]
+                by_cases hm : loneIndex p0 lh = m ∧ m < p0.data.length
+                · obtain ⟨hm1, hm2⟩ := hm
+                  have hm1' : (Int.fdiv (lh.time - p0.time) p0.dt).toNat = m := hm1
+                  simp [hm1, hm2, hm1', hitPE]; grind
+                · have hb : (decide (loneIndex p0 lh = m) && decide (m < p0.data.length)) = false := by
+                    simp only [Bool.and_eq_false_iff, decide_eq_false_iff_not]
+                    by_cases h1 : loneIndex p0 lh = m
+                    · right; intro h2; exact hm ⟨h1, h2⟩
+                    · left; exact h1
+                  have : ¬ (m = (Int.fdiv (lh.time - p0.time) p0.dt).toNat ∧ (Int.fdiv (lh.time - p0.time) p0.dt).toNat < p0.data.length) := by
+                    intro hh; apply hm; refine ⟨hh.1.symm, ?_⟩; rw [hh.1]; exact hh.2
+                  simp [this, hb, Rat.add_zero]
+            · obtain ⟨q, e1, e2, e3, e4, e5, e6, e7, e8, e9⟩ := h2 k p (by rw [modifyNth_getElem?]; simp [hk, hp])
+              have hne : ¬ (some i = some k) := by intro hh; exact hk (Option.some.inj hh).symm
+              refine ⟨q, e1, e2, e3, e4, e5, e6, ?_, ?_, ?_⟩
+              · simpa [loneArea, List.filter_cons, hne] using e7
+              · intro c; simpa [loneApc, List.filter_cons, hne] using e8 c
+              · intro m; simpa [loneData, List.filter_cons, hne] using e9 m
+
+
+/-- `_fc_in` only reports a container that really contains the thing -/
+theorem fcIn_sound : ∀ (as cs : List (Int × Int)) (bi n k : Nat),
+    (fcIn as cs bi)[n]? = some (some k) →
+    ∃ a c, as[n]? = some a ∧ bi ≤ k ∧ cs[k - bi]? = some c ∧ c.1 ≤ a.1 ∧ a.2 ≤ c.2 := by
+  intro as
+  induction as with
+  | nil => intro cs bi n k h; simp [fcIn] at h
+  | cons a as ih =>
+    intro cs bi n k h
+    obtain ⟨a0, a1⟩ := a
+    simp only [fcIn] at h
+    split at h
+    · -- containers exhausted: everything is `none`
+      cases n with
+      | zero => simp at h
+      | succ n => simp [List.getElem?_map] at h
+    · rename_i b0 b1 tl hcs
+      cases n with
+      | zero =>
+        simp only [List.getElem?_cons_zero, Option.some.injEq] at h
+        split at h
+        · rename_i hc
+          simp only [Option.some.injEq] at h
+          refine ⟨(a0, a1), (b0, b1), rfl, by omega, ?_, hc.1, hc.2⟩
+          have : cs[(List.takeWhile (fun c => decide (c.2 ≤ a0)) cs).length]? = some (b0, b1) := by
+            have := congrArg (fun l => l[0]?) hcs
+            simpa [List.getElem?_drop] using this
+          rw [← h]; simpa using this
+        · simp at h
+      | succ n =>
+        simp only [List.getElem?_cons_succ] at h
+        obtain ⟨a', c, e1, e2, e3, e4, e5⟩ := ih _ _ n k h
+        refine ⟨a', c, by simpa using e1, by omega, ?_, e4, e5⟩
+        rw [List.getElem?_drop] at e3
+        rw [← e3]; congr 1; omega
+
+/-- `add_lone_hits` = the sanity checks, `_fc_in` on the intervals, then the update loop -/
+theorem addLoneHits_ok (toPe : List Rat) (peaks out : List Peak) (lone : List Hit)
+    (h : addLoneHits toPe peaks lone = .ok out) :
+    addLoneLoop toPe ((fcIn (lone.map fun h => (h.time, h.endt)) (peaks.map fun p => (p.time, p.endt)) 0).zip lone) peaks = .ok out := by
+  unfold addLoneHits at h
+  split at h
+  · simp at h
+  · split at h
+    · simp at h
+    · exact h
+
+
+
+/-! ## compute_widths -/
+
+theorem iofInner_length (A x : Rat) (i : Nat) (seen : Rat) : ∀ (rem : List Rat),
+    (iofInner A x i seen rem).1.length + (iofInner A x i seen rem).2.length = rem.length := by
+  intro rem
+  induction rem with
+  | nil => simp [iofInner]
+  | cons f rest ih =>
+    unfold iofInner
+    split
+    · simp only [List.length_cons]; omega
+    · simp
+
+theorem iofLoop_length (A : Rat) : ∀ (xs : List Rat) (i : Nat) (seen : Rat) (rem : List Rat),
+    (iofLoop A xs i seen rem).1.length + (iofLoop A xs i seen rem).2.length = rem.length := by
+  intro xs
+  induction xs with
+  | nil => intro i seen rem; simp [iofLoop]
+  | cons x xs ih =>
+    intro i seen rem
+    have h1 := iofInner_length A x i seen rem
+    rw [iofLoop]
+    simp only []
+    generalize iofInner A x i seen rem = r at h1
+    obtain ⟨rs, rem'⟩ := r
+    simp only [] at h1 ⊢
+    split
+    · rename_i he
+      have : rem' = [] := by simpa using he
+      subst this; simpa using h1
+    · have h2 := ih (i+1) (seen + x / A) rem'
+      generalize iofLoop A xs (i+1) (seen + x / A) rem' = r2 at h2
+      obtain ⟨rs', rem''⟩ := r2
+      simp only [List.length_append] at h2 ⊢
+      omega
+
+theorem setLast_length (l : List Rat) (v : Rat) : (setLast l v).length = l.length := by
+  unfold setLast
+  split
+  · rename_i h; have : l = [] := by simpa using h
+    subst this; rfl
+  · rename_i a r h
+    have : l.length = r.length + 1 := by
+      have := congrArg List.length h; simpa using this
+    simp; omega
+
+theorem indexOfFraction_length (p : Peak) (fr : List Rat) : (indexOfFraction p fr).length = fr.length := by
+  unfold indexOfFraction
+  split
+  · simp
+  · unfold computeIndexOfFraction
+    have h := iofLoop_length p.area p.wave 0 0 fr
+    generalize iofLoop p.area p.wave 0 0 fr = r at h
+    obtain ⟨rs, rem⟩ := r
+    simp only [] at h ⊢
+    have hl : (rs ++ rem.map fun _ => (0 : Rat)).length = fr.length := by simp; omega
+    have ite_len : ∀ (c : Prop) [Decidable c] (a b : List Rat) (n : Nat), a.length = n → b.length = n →
+        (if c then a else b).length = n := by
+      intro c _ a b n ha hb; split <;> assumption
+    exact ite_len _ _ _ _ (by rw [setLast_length]; exact hl) hl
+
+theorem everySecond_getElem? : ∀ (l : List Rat) (k : Nat), (everySecond l)[k]? = l[2 * k]?
+  | [], k => by simp [everySecond]
+  | [x], k => by cases k <;> simp [everySecond]
+  | x :: y :: rest, k => by
+    cases k with
+    | zero => simp [everySecond]
+    | succ k =>
+      simp only [everySecond, List.getElem?_cons_succ]
+      rw [everySecond_getElem? rest k]
+      have : 2 * (k + 1) = (2 * k) + 1 + 1 := by omega
+      rw [this]; simp
+
+/-- `compute_widths` in terms of the area-fraction times `t_j = index_of_fraction(fr)[j] · dt` (`fr` the
+ascending list of `2i+1` fractions): median = `t_i`, width `k` = `t_{i+k} − t_{i−k}`, decile `k` = `t_{2k} − t_i` -/
+theorem computeWidths_spec (p : Peak) (nW : Nat) (i : Nat) (hodd : (widthFractions nW).length = 2 * i + 1) :
+    let times := (indexOfFraction p (widthFractions nW)).map (· * (p.dt : Rat))
+    (computeWidths p nW).1 = times.getD i 0 ∧
+    (∀ k, k ≤ i → (computeWidths p nW).2.1[k]? = some (times.getD (i + k) 0 - times.getD (i - k) 0)) ∧
+    (∀ k, (computeWidths p nW).2.2[k]? = (times[2 * k]?).map (· - times.getD i 0)) := by
+  intro times
+  have hlen : times.length = 2 * i + 1 := by
+    simp only [times, List.length_map, indexOfFraction_length, hodd]
+  have hi : (widthFractions nW).length / 2 = i := by omega
+  unfold computeWidths
+  simp only [hi]
+  refine ⟨rfl, ?_, ?_⟩
+  · intro k hk
+    rw [List.getElem?_zipWith]
+    have h1 : (List.drop i times)[k]? = some (times.getD (i + k) 0) := by
+      rw [List.getElem?_drop, List.getD_eq_getElem?_getD]
+      have : i + k < times.length := by omega
+      simp [List.getElem?_eq_getElem this]
+    have h2 : (List.drop i times.reverse)[k]? = some (times.getD (i - k) 0) := by
+      rw [List.getElem?_drop, List.getElem?_reverse (by omega), List.getD_eq_getElem?_getD]
+      have e : times.length - 1 - (i + k) = i - k := by omega
+      have : i - k < times.length := by omega
+      rw [e]; simp [List.getElem?_eq_getElem this]
+    rw [h1, h2]
+  · intro k
+    rw [List.getElem?_map, everySecond_getElem?]
+
+
+/-! ## replace_merged: the result is time-sorted -/
+
+/-- every merged row starts where the first original row of its window starts -/
+def MergedStartAtWindow (orig : List Row) : List (Row × (Nat × Nat)) → Prop
+  | [] => True
+  | (m, (s, _)) :: rest => (∃ h : s < orig.length, m.time = orig[s].time) ∧ MergedStartAtWindow orig rest
+
+theorem mem_slice_index {α} (l : List α) (lo hi : Nat) (x : α) (hx : x ∈ slice l lo hi) :
+    ∃ j, lo ≤ j ∧ j < hi ∧ ∃ h : j < l.length, x = l[j] := by
+  unfold slice at hx
+  obtain ⟨k, hk, rfl⟩ := List.getElem_of_mem hx
+  simp only [List.length_take, List.length_drop] at hk
+  refine ⟨lo + k, by omega, by omega, by omega, ?_⟩
+  simp
+
+theorem mem_drop_index {α} (l : List α) (lo : Nat) (x : α) (hx : x ∈ l.drop lo) :
+    ∃ j, lo ≤ j ∧ ∃ h : j < l.length, x = l[j] := by
+  obtain ⟨k, hk, rfl⟩ := List.getElem_of_mem hx
+  simp only [List.length_drop] at hk
+  exact ⟨lo + k, by omega, by omega, by simp⟩
+
+/-- every row of the defining interleaving starts at the start time of some original row at or behind `lo` -/
+theorem replaceSpec_mem (orig : List Row) : ∀ (pend : List (Row × (Nat × Nat))) (lo : Nat),
+    WindowsOk orig.length lo pend → MergedStartAtWindow orig pend →
+    ∀ x ∈ replaceSpec orig lo pend, ∃ j, lo ≤ j ∧ ∃ h : j < orig.length, x.time = orig[j].time := by
+  intro pend
+  induction pend with
+  | nil =>
+    intro lo _ _ x hx
+    obtain ⟨j, h1, h2, rfl⟩ := mem_drop_index orig lo x hx
+    exact ⟨j, h1, h2, rfl⟩
+  | cons y rest ih =>
+    obtain ⟨m, s, e⟩ := y
+    intro lo hw hm x hx
+    obtain ⟨w1, w2, w3, w4⟩ := hw
+    obtain ⟨⟨hs, hmt⟩, hm'⟩ := hm
+    simp only [replaceSpec, List.mem_append, List.mem_cons] at hx
+    rcases hx with hx | rfl | hx
+    · obtain ⟨j, h1, _, h3, rfl⟩ := mem_slice_index orig lo s x hx
+      exact ⟨j, h1, h3, rfl⟩
+    · exact ⟨s, w1, hs, hmt⟩
+    · obtain ⟨j, h1, h2, h3⟩ := ih e w4 hm' x hx
+      exact ⟨j, by omega, h2, h3⟩
+
+/-- **time-sortedness of the `replace_merged` result**: time-sorted originals, well-formed windows and merged rows
+that start where their window starts give a time-sorted result -/
+theorem replaceSpec_sorted (orig : List Row) (hso : orig.Pairwise (fun a b => a.time ≤ b.time)) :
+    ∀ (pend : List (Row × (Nat × Nat))) (lo : Nat),
+      WindowsOk orig.length lo pend → MergedStartAtWindow orig pend →
+      (replaceSpec orig lo pend).Pairwise (fun a b => a.time ≤ b.time) := by
+  have hmono : ∀ (i j : Nat) (hi : i < orig.length) (hj : j < orig.length), i ≤ j → orig[i].time ≤ orig[j].time := by
+    intro i j hi hj hij
+    rcases Nat.lt_or_eq_of_le hij with h | h
+    · exact List.pairwise_iff_getElem.mp hso i j hi hj h
+    · subst h; exact Int.le_refl _
+  intro pend
+  induction pend with
+  | nil =>
+    intro lo _ _
+    exact hso.sublist (List.drop_sublist _ _)
+  | cons y rest ih =>
+    obtain ⟨m, s, e⟩ := y
+    intro lo hw hm
+    obtain ⟨w1, w2, w3, w4⟩ := hw
+    obtain ⟨⟨hs, hmt⟩, hm'⟩ := hm
+    simp only [replaceSpec]
+    rw [List.pairwise_append]
+    refine ⟨?_, ?_, ?_⟩
+    · unfold slice
+      exact (hso.sublist (List.drop_sublist _ _)).sublist (List.take_sublist _ _)
+    · rw [List.pairwise_cons]
+      refine ⟨?_, ih e w4 hm'⟩
+      intro x hx
+      obtain ⟨j, h1, h2, h3⟩ := replaceSpec_mem orig rest e w4 hm' x hx
+      rw [hmt, h3]; exact hmono s j hs h2 (by omega)
+    · intro a ha b hb
+      obtain ⟨ja, _, a2, a3, rfl⟩ := mem_slice_index orig lo s a ha
+      rcases List.mem_cons.mp hb with rfl | hb
+      · rw [hmt]; exact hmono ja s a3 hs (by omega)
+      · obtain ⟨j, h1, h2, h3⟩ := replaceSpec_mem orig rest e w4 hm' b hb
+        rw [h3]; exact hmono ja j a3 h2 (by omega)
+
+
 end Strax.Peaks
